@@ -36,6 +36,7 @@ type env struct {
 
 func main() {
 	run := vr.New("C14", "exploration")
+	defer run.Recover()
 	e := &env{run: run, repo: os.Getenv("VERIF_REPO_DIR")}
 	if e.repo == "" {
 		e.repo = "/repo"
